@@ -42,6 +42,7 @@ fn twin_cfg(t: &mut Tape) -> RunCfg {
     c.payload_law = t.choose(2);
     c.delay_law = 0;
     c.p_io_err = 0;
+    c.p_write_zero = 0;
     c.p_connack_fault = 0;
     c.p_session_loss = 0;
     c.p_small_limits = 0;
@@ -90,10 +91,14 @@ pub fn cfg_for(scn: Scenario, t: &mut Tape, extra: u64) -> RunCfg {
         }
         Scenario::FaultEnum(_) | Scenario::Table => {
             // the pre-state is a function of `extra` only (not of the batch seed)
-            let pre = extra % PRESTATES;
+            let pre = match scn {
+                Scenario::FaultEnum(_) => extra / (9 * 28 * 10),
+                _ => extra / crate::scen2::table_cases(),
+            };
             let mut pt = Tape::generate(mix(0xFA17, pre));
             let mut c = run::gen_cfg(&mut pt, Profile::General);
             c.p_io_err = 0;
+            c.p_write_zero = 0;
             c.p_connack_fault = 0;
             c.max_conns = 1 + (pre % 3) as u32;
             c.max_steps = 4 + (pre % 23) as u32;
@@ -132,13 +137,14 @@ pub fn cfg_for(scn: Scenario, t: &mut Tape, extra: u64) -> RunCfg {
             c.client_id = "b".into();
             c.will = None;
             c.auth = None;
-            c.rx_len = 64;
+            c.rx_len = if matches!(scn, Scenario::Bytes(1)) { 512 } else { 64 };
             c.tx_len = 256;
             c.session_expiry = 3600;
             c.id_burn = 0;
             c.downgrade = false;
             c.p_stall = 0;
             c.p_io_err = 0;
+            c.p_write_zero = 0;
             c.p_cancel = 0;
             c.p_partial_write = 0;
             c.p_frag_read = [0, 500, 1000][(extra % 3) as usize];
@@ -155,7 +161,6 @@ pub fn cfg_for(scn: Scenario, t: &mut Tape, extra: u64) -> RunCfg {
     }
 }
 
-pub const PRESTATES: u64 = 96;
 
 pub fn run_scenario(scn: Scenario, extra: u64) {
     match scn {
